@@ -606,7 +606,7 @@ class CFG:
                 facts = {f for f in facts if not (self.cond_decls(f[0]) & w)}
         return facts
 
-    def semantic_must(self, edge_gen, node_kill):
+    def semantic_must(self, edge_gen, node_kill, node_gen=None, edge_gen_uses_facts=False):
         """Forward must-analysis over arbitrary hashable facts.
         edge_gen(cond_node, polarity) -> set of facts generated on a branch edge;
         node_kill(node, fact) -> True if executing element `node` invalidates fact.
@@ -623,9 +623,14 @@ class CFG:
                 els = els[:upto]
             for e in els:
                 n = self.func.nodes.get(e)
-                if n is None or not facts:
+                if n is None:
                     continue
-                facts = {f for f in facts if not node_kill(n, f)}
+                if facts:
+                    facts = {f for f in facts if not node_kill(n, f)}
+                if node_gen is not None:
+                    g = node_gen(n, facts)
+                    if g:
+                        facts = facts | g
             return facts
         while work:
             b = work.popleft()
@@ -640,7 +645,10 @@ class CFG:
                 gen = set()
                 for (cid, pol) in efs[i]:
                     if not isinstance(pol, tuple):
-                        gen |= edge_gen(self.func.nodes[cid], pol)
+                        if edge_gen_uses_facts:
+                            gen |= edge_gen(self.func.nodes[cid], pol, out)
+                        else:
+                            gen |= edge_gen(self.func.nodes[cid], pol)
                 new = out | gen
                 old = fin[s]
                 if old is TOP:
